@@ -89,7 +89,9 @@ def run(tier, seed):
     rep.nontrivial = len(rs)
     rep.extra["restarts"] = len(rs)
     rep.rule = ("uninterrupted split runs (continuous or discrete release, deaths of release rows by the IBM and at the boundary, IBM age, scalar forcing, EF/RK2/RK4, "
-                "periods that do and do not divide the run) x a warm start from every completed output file; non-trivial = number of restarts")
+                "periods that do and do not divide the run, output with and without particle variables, a directed family in which the newest particles die soon "
+                "after release) x a warm start from every completed output file, plus one chained restart from the first file the restarted run completed; "
+                "non-trivial = number of restarts")
     rep.assumptions = ["diffusion off; output written as f8 / i4 so 'up to output precision' is equality", "forward time (reversed warm starts are outside LADiM's supported set-ups)",
                        "records with time < stop are compared (a warm-started run also writes a record at the stop time: WarmFinalRecord, DESIGN 4)"]
     return rep
